@@ -8,22 +8,22 @@ CHECKS = {
  "C01": ("Real attester + signer + attestation-data strategies: 2-12 overlapping Attest runs from 2-4 client tasks over small duty universes (repeated, re-delivered, re-assigned validators), with data/sign/submit faults. Oracle over the signer-side request log: at most one attestation signing request per (validator, epoch); slot/target/source well-formed; nothing signed or submitted for refused data; submitted data equals signed data.",
          "accounts, beacon nodes and submitter are stubs; seeded sampling",
          TECH + "signer-side history oracle"),
- "C02": ("Seeded search over schedules of the real advanced scheduler: 1-4 jobs and 0-6 API calls placed at -5s/-1ns/0/+1ns/+5s of the timer, every lock/select/atomic a recorded scheduling decision; the recorded history is judged by a contract model (exactly once, run-now success implies a run, cancel clearly before, periodic non-overlap and ticking, name reuse). Further clauses: a live job (in particular a periodic one) stays known to JobExists/ListJobs/CancelJob/RunJob and keeps its name taken; of overlapping requests to schedule one name at most one is accepted.",
+ "C02": ("Seeded search over schedules of the real advanced scheduler: 1-4 jobs and 0-6 API calls placed at -5s/-1ns/0/+1ns/+5s of the timer, every lock/select/atomic a recorded scheduling decision; the recorded history is judged by a contract model (exactly once, run-now success implies a run, cancel clearly before, periodic non-overlap and ticking, name reuse). Further clauses: a live job (in particular a periodic one) stays known to JobExists/ListJobs/CancelJob/RunJob and keeps its name taken; of overlapping requests to schedule one name at most one is accepted; a cancelled periodic job starts no further invocation once the one under way has ended.",
          "job functions and callers are stubs; go-deadlock's detector is disabled under go1.26 (modelled locks replace it)",
          TECH + "contract-model oracle over recorded history"),
  "C03": ("Whole-system simulation: real controller, scheduler and chaintime against a simulated chain (seeded duty tables keyed by duty-dependent roots, head/block event streams from 1-2 nodes, reorgs, missed slots, slow/failing duty requests, crash/restart at arbitrary instants, start before/at/after genesis and on epoch boundaries). Oracle: never two executions per (kind, slot, validator) over all incarnations; every execution carries exactly the validators of the duty set last obtained; every obtained future duty is executed at slot start + configured delay (earlier only when fast-tracked); vouch's slot/epoch/time conversions equal the oracle's integer arithmetic at every probe instant. Run with recording duty services (focused) and with the real ones (full). Further clauses: a head event showing changed duty-dependent roots (judged from the events the node delivered) makes vouch request the affected duties again; proposals follow the proposer duties obtained last; a sync committee period lived through has been requested; plans include slow duty requests overlapping reorgs, answers computed at request time, long proposals; an attestation job never stems from an answer that arrived after its slot was over.",
          "beacon nodes, accounts and event streams are stubs; main.go wiring is reproduced by the harness",
          TECH + "history oracle against the duties the node stub actually served"),
- "C04": ("Same component scenario as C01 with content focus: duties with 1-6 validators over 1-3 committees of distinct sizes, subsets already attested / without account / left unsigned, mixed account kinds. Oracle: each submitted attestation is attributed to its validator through the signer log and must carry that validator's committee index, bit position and committee size and the data obtained for the run; validators without signature yield none.",
+ "C04": ("Same component scenario as C01 with content focus: duties with 1-6 validators over 1-3 committees of distinct sizes, subsets already attested / without account / left unsigned, mixed account kinds. Oracle: each submitted attestation is attributed to its validator through the signer log and must carry that validator's committee index, bit position and committee size and the data obtained for the run; validators without signature yield none. Merged duty answers include ones of dozens of entries.",
          "accounts, beacon nodes and submitter are stubs; seeded sampling",
          TECH + "per-validator attribution through the signer log"),
  "C05": ("Real block proposer (Prepare+Propose) + signer over stub proposal providers, auctioneer, relays and submitter: versions phase0..deneb, full and blinded, proposals for the duty slot or another slot, graffiti and auction failures, per-relay unblinding behaviours. Oracle: RANDAO/block signing only for the duty's validator and slot, signed roots recomputed from the obtained block, submitted = signed block, unblinding provenance, degradation instead of skipping. Includes a slot that was prepared for another of vouch's validators first, obtained blocks that name another proposer index (the signer is only ever asked for the duty's validator), relays that give up without a block before a slower relay returns it.",
          "proposal providers, relays, auctioneer and submitter are stubs; seeded sampling",
          TECH + "history oracle with independently recomputed SSZ roots"),
- "C06": ("Real signer driven through all its signing methods with generated messages and batches over all four account kinds, a generated fork schedule and signer faults. Oracle: every returned signature verifies with real BLS under the requested account's key against compute_signing_root built independently from the specification (object root, domain type, fork version of the duty's epoch); batch position i belongs to account i. Includes a specification without the builder domain type and failing domain requests.",
+ "C06": ("Real signer driven through all its signing methods with generated messages and batches over all four account kinds, a generated fork schedule and signer faults. Oracle: every returned signature verifies with real BLS under the requested account's key against compute_signing_root built independently from the specification (object root, domain type, fork version of the duty's epoch); batch position i belongs to account i. Includes a specification without the builder domain type, failing domain requests, and the same account twice in one batch with different messages.",
          "the remote signer/accounts are stubs backed by real BLS keys; inputs dominate this property, simulation contributes fork-boundary time, partial signer faults and batch mixtures",
          TECH + "real BLS verification against independently merkleised signing roots"),
- "C07": ("Each of the 14 data strategies alone with 1-5 stub providers whose latencies lie on/around the soft and hard deadline, errors, hangs, providers ignoring cancellation, invalid content by the strategy's stated rules, two sequential calls. Oracle: returns by start+timeout; value is one some provider of this call returned by then and valid; error only without a valid response; best not dominated (one-dimensional dominance); majority count/threshold rules incl. not giving up early; ties at one instant accepted either way. Includes self-consistent data of another epoch, {{CLIENT}} graffiti with client names of any length; a strategy that spins (no simulated time passing) is reported as livelock.",
+ "C07": ("Each of the 14 data strategies alone with 1-5 stub providers whose latencies lie on/around the soft and hard deadline, errors, hangs, providers ignoring cancellation, invalid content by the strategy's stated rules, two sequential calls. Oracle: returns by start+timeout; value is one some provider of this call returned by then and valid; error only without a valid response; best not dominated (one-dimensional dominance); majority count/threshold rules incl. not giving up early; ties at one instant accepted either way. Includes self-consistent data of another epoch, {{CLIENT}} graffiti with client names of any length; a strategy that spins (no simulated time passing) is reported as livelock. Majority variants that share the head and differ in the checkpoints; heads that are the target checkpoint block before the epoch's first slot; ties between equally frequent block roots broken by the slot of their blocks; the cache stub ends a lookup with its context.",
          "providers, chaintime input and block-root cache are stubs; seeded sampling",
          TECH + "response-attribution oracle over stub histories"),
  "C08": ("Real multinode (8 kinds) and immediate submitters with util.Scatter over 1-5 stub nodes: payload 1-40 with concurrency 1-8, accept / reject / tolerated rejection texts in the client libraries' rendering / malformed / slow / hang, instant answers (lost wake-up schedule) and answers at the timeout instant. Oracle: every node offered the full payload exactly once; success iff some node accepted or rejected only for a tolerated reason by the timeout; returns by the timeout; node isolation. Includes earlier submissions with hanging calls on the same service instance, a hanging version query, and the clause that every node is offered the submission the moment it is made (concurrency permitting).",
@@ -56,7 +56,7 @@ CHECKS = {
  "C17": ("Whole-system simulation and focused pairs built with -race and scheduled by the controller, whose park protocol adds no happens-before edge: the Go race detector reports unsynchronised conflicting accesses between vouch's own goroutines under seeded, replayable interleavings. Also judged: outcomes of no sequential order (double attestation by overlapping duty jobs, a second auction for one builder bid, a lookup mixing account states). Races between accesses at different simulated instants are visible (the controller's own timer is bracketed by RaceDisable).",
          "race reports are filtered to pairs of stacks inside vouch; harness accesses use race-invisible critical sections",
          TECH + "Go race detector under a controlled schedule"),
- "C18": ("Real block-root-to-slot cache with the real scheduler (cleaning job) and chaintime over stub event and header providers: block events, hits, misses, concurrent misses, fetch failures/late answers, lookups at the edges of the retention window across cleaning runs. Oracle: reference map; a lookup returns that root's slot or an error iff its fetch failed; entries inside the retention window are still hits.",
+ "C18": ("Real block-root-to-slot cache with the real scheduler (cleaning job) and chaintime over stub event and header providers: block events, hits, misses, concurrent misses, fetch failures/late answers, lookups at the edges of the retention window across cleaning runs. Oracle: reference map; a lookup returns that root's slot or an error iff its fetch failed; entries inside the retention window are still hits. The strategies that rank answers by the slot of a root (attestation data best, block root latest and majority) run against a cache stub: an answer ranked by another slot than its block's is a violation.",
          "events and header providers are stubs; retention window taken from the cache's own comment (64 epochs)",
          TECH + "reference-map oracle"),
  "C20": ("Whole-system simulation run for 21 epochs with steady duties: warm-up, measured window A, fault storm (reorgs withdrawing duties, missed slots), quiet epochs, measured window B at the same phase of the sync committee period. Oracle: size of each bookkeeping structure named in the property (read reflectively) and the live task count at B do not exceed A; HasPendingAttestations(slot) equals 'an attestation job for the slot is outstanding' (from the scheduler seam) at every settled point. Also: a node that never answers (no client timeout), head-root failures (measured one period later), goroutines stalled after ScheduleJob, attestation jobs outlasting the next head event. Strategy goroutines: each of the 14 strategy scenarios of C07 re-judged for one thing only - after every call returned, the timeout passed and every node answered or was cancelled, no goroutine started by the strategy is left.",
